@@ -438,3 +438,313 @@ Lemma sp_In_sdel z x l : zasc l -> (In z (sdel x l) <-> In z l /\ z <> x).
 Proof.
   intros H. rewrite <- !sp_smem_In, sp_smem_sdel, andb_true_iff, negb_true_iff, Z.eqb_neq by assumption. tauto.
 Qed.
+
+(* ================================================================================== *)
+(* Positional removal from the ordering list (shared with LinkedProofs.v)               *)
+(* ================================================================================== *)
+
+Definition drop (v : Z) (l : list Z) : list Z := filter (fun y => negb (y =? v)) l.
+
+Lemma sp_drop_notin v l : ~ In v l -> drop v l = l.
+Proof.
+  unfold drop. induction l as [|a l IH]; intros Hn; [reflexivity|].
+  cbn [filter]. destruct (Z.eqb_spec a v) as [->|Hne].
+  - exfalso. apply Hn. left. reflexivity.
+  - cbn [negb]. f_equal. apply IH. intros H. apply Hn. right. assumption.
+Qed.
+
+Lemma sp_In_drop z v l : In z (drop v l) <-> In z l /\ z <> v.
+Proof.
+  unfold drop. rewrite filter_In, negb_true_iff, Z.eqb_neq. reflexivity.
+Qed.
+
+Lemma sp_NoDup_drop v l : NoDup l -> NoDup (drop v l).
+Proof. intros H. unfold drop. apply NoDup_filter. assumption. Qed.
+
+Lemma sp_index_split v l : NoDup l -> In v l -> forall n,
+  exists i : nat, index_from v l n = n + Z.of_nat i /\ (i < length l)%nat /\
+                  firstn i l ++ skipn (S i) l = drop v l.
+Proof.
+  induction l as [|a l IH]; intros Hnd Hin n; [contradiction|].
+  inversion Hnd as [|a' l' Hna Hnd']; subst.
+  cbn [index_from]. unfold drop. cbn [filter]. destruct (Z.eqb_spec a v) as [->|Hne].
+  - exists 0%nat. cbn [negb firstn skipn app length]. split; [lia|]. split; [lia|].
+    symmetry. apply sp_drop_notin. assumption.
+  - destruct Hin as [He|Hin]; [contradiction|].
+    destruct (IH Hnd' Hin (n + 1)) as (i & Hi & Hlt & Hsp).
+    exists (S i). cbn [negb length]. split; [lia|]. split; [lia|].
+    cbn [firstn skipn app]. cbn [skipn] in Hsp. f_equal. exact Hsp.
+Qed.
+
+Lemma sp_dll_remove_index v l : NoDup l -> In v l -> dll_remove (dll_index_of v l) l = drop v l.
+Proof.
+  intros Hnd Hin. destruct (sp_index_split v l Hnd Hin 0) as (i & Hi & Hlt & Hsp).
+  unfold dll_remove, sll_remove, dll_index_of, sll_index_of.
+  destruct l as [|a l]; [contradiction|]. rewrite Hi.
+  replace (0 + Z.of_nat i) with (Z.of_nat i) by lia.
+  assert (Hw : within (Z.of_nat i) (a :: l) = true).
+  { unfold within, zlen. apply andb_true_iff. split; [apply Z.leb_le|apply Z.ltb_lt]; lia. }
+  rewrite Hw. cbn [negb]. rewrite Nat2Z.id.
+  destruct (zlen (a :: l) =? 1) eqn:E; [|exact Hsp].
+  apply Z.eqb_eq in E. unfold zlen in E. cbn [length] in *.
+  destruct l as [|b l]; [|cbn [length] in E; lia].
+  rewrite <- Hsp. destruct i as [|i]; [reflexivity|cbn [length] in Hlt; lia].
+Qed.
+
+Lemma sp_dll_add1 x l : dll_add [x] l = l ++ [x].
+Proof. reflexivity. Qed.
+
+(* ================================================================================== *)
+(* Red-black tree with cached size                                                      *)
+(* ================================================================================== *)
+
+Definition tree_inv (cmp : cmpf) (t : RB.tree) (n : Z) : Prop :=
+  rbt t /\ bst cmp t /\ n = Z.of_nat (RBTree.count t).
+
+Lemma sp_tree_inv_E cmp : tree_inv cmp RBTree.E 0.
+Proof. split; [apply rbt_E|]. split; [constructor|reflexivity]. Qed.
+
+Lemma sp_mem_length cmp k (l : list (Z * Z)) : mem_list cmp k l = true -> (0 < length l)%nat.
+Proof. destruct l; [discriminate|cbn; lia]. Qed.
+
+Lemma sp_rbs_put_spec cmp k v t n : SWO cmp -> tree_inv cmp t n ->
+  exists t' n', rbs_put cmp k v (t, n) = Some (t', n') /\ tree_inv cmp t' n' /\
+                RBTree.inorder t' = ins_list cmp k v (RBTree.inorder t) /\
+                n' = (if mem_list cmp k (RBTree.inorder t) then n else n + 1).
+Proof.
+  intros Hswo (Hrb & Hbst & Hn).
+  destruct (put_rbt cmp k v t Hrb) as (t' & b & Hput & Hrb').
+  assert (Hio : RBTree.inorder t' = ins_list cmp k v (RBTree.inorder t) /\ bst cmp t' /\
+                b = negb (mem_list cmp k (RBTree.inorder t))).
+  { eapply put_inorder; eassumption. }
+  destruct Hio as (Hio & Hbst' & Hb).
+  exists t', (if b then n + 1 else n). unfold rbs_put. cbn [fst snd]. rewrite Hput.
+  split; [reflexivity|].
+  assert (Hlen : length (RBTree.inorder t') =
+                 if mem_list cmp k (RBTree.inorder t) then length (RBTree.inorder t) else S (length (RBTree.inorder t))).
+  { rewrite Hio. apply sp_length_ins; assumption. }
+  split; [|split; [assumption|]].
+  - split; [assumption|]. split; [assumption|].
+    rewrite count_inorder, Hlen. rewrite count_inorder in Hn. subst b n.
+    destruct (mem_list cmp k (RBTree.inorder t)); cbn [negb]; lia.
+  - subst b. destruct (mem_list cmp k (RBTree.inorder t)); reflexivity.
+Qed.
+
+Lemma sp_rbs_remove_spec cmp k t n : SWO cmp -> tree_inv cmp t n ->
+  exists t' n', rbs_remove cmp k (t, n) = Some (t', n') /\ tree_inv cmp t' n' /\
+                RBTree.inorder t' = del_list cmp k (RBTree.inorder t) /\
+                n' = (if mem_list cmp k (RBTree.inorder t) then n - 1 else n).
+Proof.
+  intros Hswo (Hrb & Hbst & Hn).
+  destruct (remove_rbt cmp k t Hrb) as (t' & b & Hrem & Hrb').
+  assert (Hio : RBTree.inorder t' = del_list cmp k (RBTree.inorder t) /\ bst cmp t' /\
+                b = mem_list cmp k (RBTree.inorder t)).
+  { eapply remove_inorder; eassumption. }
+  destruct Hio as (Hio & Hbst' & Hb).
+  exists t', (if b then n - 1 else n). unfold rbs_remove. cbn [fst snd]. rewrite Hrem.
+  split; [reflexivity|].
+  assert (Hlen : length (RBTree.inorder t') =
+                 if mem_list cmp k (RBTree.inorder t) then Nat.pred (length (RBTree.inorder t)) else length (RBTree.inorder t)).
+  { rewrite Hio. apply sp_length_del; assumption. }
+  split; [|split; [assumption|]].
+  - split; [assumption|]. split; [assumption|].
+    rewrite count_inorder, Hlen. rewrite count_inorder in Hn. subst b n.
+    destruct (mem_list cmp k (RBTree.inorder t)) eqn:M; [|reflexivity].
+    apply sp_mem_length in M. lia.
+  - subst b. reflexivity.
+Qed.
+
+Lemma sp_rbs_get_spec cmp k t : SWO cmp -> bst cmp t ->
+  rbs_get cmp k (t, 0) = match find_list cmp k (RBTree.inorder t) with Some e => Some (snd e) | None => None end.
+Proof.
+  intros Hswo Hb. unfold rbs_get. cbn [fst].
+  assert (H : RBTree.lookup cmp k t = find_list cmp k (RBTree.inorder t)) by (apply lookup_spec; assumption).
+  rewrite H. destruct (find_list cmp k (RBTree.inorder t)) as [[k' v']|]; reflexivity.
+Qed.
+
+(* ================================================================================== *)
+(* C04                                                                                  *)
+(* ================================================================================== *)
+
+Definition is_set_kind (k : kind) : bool :=
+  match k with HashSet | TreeSet | LinkedHashSet => true | _ => false end.
+
+(* the equivalence a set kind identifies elements by: == for the hash kinds, the comparator for TreeSet *)
+Definition set_cmp (c : config) : cmpf := match ckind c with TreeSet => kc c | _ => Z.compare end.
+Definition sequiv (c : config) (x y : Z) : Prop := set_cmp c x y = Eq.
+
+(* Contains(x) of a single element *)
+Definition member (c : config) (s : state) (x : Z) : bool :=
+  match s with
+  | StHSet l => smem x l
+  | StLSet tbl _ => smem x tbl
+  | StRB t _ => match RB.lookup (kc c) x t with Some _ => true | None => false end
+  | _ => false
+  end.
+
+Lemma set_cmp_SWO c : SWO (set_cmp c).
+Proof. unfold set_cmp. destruct (ckind c); first [apply sp_kc_SWO|apply sp_Zcompare_SWO]. Qed.
+
+(* ---------- the history scan ---------- *)
+Lemma live_from_app cmp h1 h2 base x :
+  live_from cmp (h1 ++ h2) base x = live_from cmp h1 (live_from cmp h2 base) x.
+Proof.
+  induction h1 as [|o h1 IH]; [reflexivity|].
+  destruct o as [vs|vs|]; cbn [app live_from]; try rewrite IH; reflexivity.
+Qed.
+
+(* ---------- HashSet ---------- *)
+Definition hs_adds (vs l : list Z) : list Z := fold_left (fun acc x => sadd x acc) vs l.
+Definition hs_dels (vs l : list Z) : list Z := fold_left (fun acc x => sdel x acc) vs l.
+
+Lemma hs_adds_spec vs : forall l, zasc l ->
+  zasc (hs_adds vs l) /\ forall z, smem z (hs_adds vs l) = eqvb Z.compare z vs || smem z l.
+Proof.
+  unfold hs_adds. induction vs as [|v vs IH]; intros l Hs.
+  - split; [assumption|]. intros z. reflexivity.
+  - cbn [fold_left]. destruct (IH (sadd v l) (sp_sadd_sorted v l Hs)) as [H1 H2].
+    split; [assumption|]. intros z. rewrite H2, sp_smem_sadd. unfold eqvb. cbn [existsb].
+    rewrite sp_is_eq_Zcompare.
+    destruct (z =? v), (existsb (fun y => is_eq (z ?= y)) vs), (smem z l); reflexivity.
+Qed.
+
+Lemma hs_dels_spec vs : forall l, zasc l ->
+  zasc (hs_dels vs l) /\ forall z, smem z (hs_dels vs l) = negb (eqvb Z.compare z vs) && smem z l.
+Proof.
+  unfold hs_dels. induction vs as [|v vs IH]; intros l Hs.
+  - split; [assumption|]. intros z. reflexivity.
+  - cbn [fold_left]. destruct (IH (sdel v l) (sp_sdel_sorted v l Hs)) as [H1 H2].
+    split; [assumption|]. intros z. rewrite H2, sp_smem_sdel by assumption. unfold eqvb. cbn [existsb].
+    rewrite sp_is_eq_Zcompare.
+    destruct (z =? v), (existsb (fun y => is_eq (z ?= y)) vs), (smem z l); reflexivity.
+Qed.
+
+(* ---------- LinkedHashSet: table and ordering list never drift apart ---------- *)
+Definition lset_inv (tbl ord : list Z) : Prop :=
+  zasc tbl /\ NoDup ord /\ forall z, In z tbl <-> In z ord.
+
+Lemma lset_inv_nil : lset_inv [] [].
+Proof. split; [constructor|]. split; [constructor|]. intros z. tauto. Qed.
+
+Lemma lset_inv_smem tbl ord z : lset_inv tbl ord -> smem z tbl = smem z ord.
+Proof.
+  intros (_ & _ & H). apply eq_true_iff_eq. rewrite !sp_smem_In. apply H.
+Qed.
+
+Lemma lset_inv_perm tbl ord : lset_inv tbl ord -> Permutation tbl ord.
+Proof.
+  intros (H1 & H2 & H3). apply NoDup_Permutation; [apply sp_zasc_NoDup|..]; assumption.
+Qed.
+
+(* one Add / Remove step, with the exact effect on the ordering list (used for C09 as well) *)
+Lemma lset_add1_spec x tbl ord : lset_inv tbl ord ->
+  exists tbl' ord', lset_add1 x (tbl, ord) = (tbl', ord') /\ lset_inv tbl' ord' /\
+    (forall z, smem z tbl' = (z =? x) || smem z tbl) /\
+    ord' = order_step ord (EIns x).
+Proof.
+  intros Hinv. pose proof (lset_inv_smem _ _ x Hinv) as Hm. destruct Hinv as (H1 & H2 & H3).
+  unfold lset_add1. cbn [order_step]. fold (smem x ord). rewrite <- Hm.
+  destruct (smem x tbl) eqn:M.
+  - exists tbl, ord. split; [reflexivity|]. split; [repeat split; try assumption; apply H3|].
+    split; [|reflexivity]. intros z. destruct (Z.eqb_spec z x) as [->|Hne]; [rewrite M|]; reflexivity.
+  - exists (sadd x tbl), (ord ++ [x]). split; [reflexivity|].
+    assert (Hnin : ~ In x ord).
+    { intros Hin. apply H3 in Hin. apply sp_smem_In in Hin. congruence. }
+    split; [|split; [intros z; apply sp_smem_sadd|reflexivity]].
+    split; [apply sp_sadd_sorted; assumption|]. split.
+    + apply (Permutation_NoDup (Permutation_cons_append ord x)). constructor; assumption.
+    + intros z. rewrite sp_In_sadd, in_app_iff, H3. cbn [In]. intuition.
+Qed.
+
+Lemma lset_remove1_spec x tbl ord : lset_inv tbl ord ->
+  exists tbl' ord', lset_remove1 x (tbl, ord) = (tbl', ord') /\ lset_inv tbl' ord' /\
+    (forall z, smem z tbl' = negb (z =? x) && smem z tbl) /\
+    ord' = order_step ord (ERem x).
+Proof.
+  intros Hinv. destruct Hinv as (H1 & H2 & H3).
+  unfold lset_remove1. cbn [order_step]. fold (drop x ord).
+  destruct (smem x tbl) eqn:M.
+  - assert (Hin : In x ord) by (apply H3, sp_smem_In; assumption).
+    exists (sdel x tbl), (drop x ord). rewrite sp_dll_remove_index by assumption.
+    split; [reflexivity|]. split; [|split; [intros z; apply sp_smem_sdel; assumption|reflexivity]].
+    split; [apply sp_sdel_sorted; assumption|]. split; [apply sp_NoDup_drop; assumption|].
+    intros z. rewrite sp_In_sdel, sp_In_drop, H3 by assumption. reflexivity.
+  - assert (Hnin : ~ In x ord).
+    { intros Hin. apply H3 in Hin. apply sp_smem_In in Hin. congruence. }
+    exists tbl, ord. split; [reflexivity|]. split; [repeat split; try assumption; apply H3|].
+    split; [|symmetry; apply sp_drop_notin; assumption].
+    intros z. destruct (Z.eqb_spec z x) as [->|Hne]; [rewrite M|]; reflexivity.
+Qed.
+
+Definition ls_adds (vs : list Z) (s : list Z * list Z) := fold_left (fun acc x => lset_add1 x acc) vs s.
+Definition ls_dels (vs : list Z) (s : list Z * list Z) := fold_left (fun acc x => lset_remove1 x acc) vs s.
+
+Lemma ls_adds_spec vs : forall tbl ord, lset_inv tbl ord ->
+  exists tbl' ord', ls_adds vs (tbl, ord) = (tbl', ord') /\ lset_inv tbl' ord' /\
+    (forall z, smem z tbl' = eqvb Z.compare z vs || smem z tbl) /\
+    ord' = fold_left order_step (map EIns vs) ord.
+Proof.
+  unfold ls_adds. induction vs as [|v vs IH]; intros tbl ord Hinv.
+  - exists tbl, ord. repeat split; try assumption; try apply Hinv.
+  - cbn [fold_left map].
+    destruct (lset_add1_spec v tbl ord Hinv) as (t1 & o1 & E1 & I1 & M1 & O1). rewrite E1.
+    destruct (IH t1 o1 I1) as (t2 & o2 & E2 & I2 & M2 & O2).
+    exists t2, o2. split; [assumption|]. split; [assumption|]. split; [|subst; reflexivity].
+    intros z. rewrite M2, M1. unfold eqvb. cbn [existsb]. rewrite sp_is_eq_Zcompare.
+    destruct (z =? v), (existsb (fun y => is_eq (z ?= y)) vs), (smem z tbl); reflexivity.
+Qed.
+
+Lemma ls_dels_spec vs : forall tbl ord, lset_inv tbl ord ->
+  exists tbl' ord', ls_dels vs (tbl, ord) = (tbl', ord') /\ lset_inv tbl' ord' /\
+    (forall z, smem z tbl' = negb (eqvb Z.compare z vs) && smem z tbl) /\
+    ord' = fold_left order_step (map ERem vs) ord.
+Proof.
+  unfold ls_dels. induction vs as [|v vs IH]; intros tbl ord Hinv.
+  - exists tbl, ord. repeat split; try assumption; try apply Hinv.
+  - cbn [fold_left map].
+    destruct (lset_remove1_spec v tbl ord Hinv) as (t1 & o1 & E1 & I1 & M1 & O1). rewrite E1.
+    destruct (IH t1 o1 I1) as (t2 & o2 & E2 & I2 & M2 & O2).
+    exists t2, o2. split; [assumption|]. split; [assumption|]. split; [|subst; reflexivity].
+    intros z. rewrite M2, M1. unfold eqvb. cbn [existsb]. rewrite sp_is_eq_Zcompare.
+    destruct (z =? v), (existsb (fun y => is_eq (z ?= y)) vs), (smem z tbl); reflexivity.
+Qed.
+
+(* ---------- TreeSet ---------- *)
+Definition tmem (cmp : cmpf) (t : RB.tree) (x : Z) : bool := mem_list cmp x (RBTree.inorder t).
+
+Lemma ts_adds_spec cmp vs : SWO cmp -> forall t n, tree_inv cmp t n ->
+  exists t' n', rbs_puts cmp (map (fun x => (x, 0)) vs) (t, n) = Some (t', n') /\ tree_inv cmp t' n' /\
+    forall z, tmem cmp t' z = eqvb cmp z vs || tmem cmp t z.
+Proof.
+  intros Hswo. induction vs as [|v vs IH]; intros t n Hinv.
+  - exists t, n. split; [reflexivity|]. split; [assumption|]. intros z. reflexivity.
+  - cbn [map rbs_puts].
+    destruct (sp_rbs_put_spec cmp v 0 t n Hswo Hinv) as (t1 & n1 & E1 & I1 & O1 & _). rewrite E1.
+    destruct (IH t1 n1 I1) as (t2 & n2 & E2 & I2 & M2).
+    exists t2, n2. split; [assumption|]. split; [assumption|].
+    intros z. rewrite M2. unfold tmem. rewrite O1, sp_mem_ins by assumption. unfold eqvb. cbn [existsb].
+    destruct (is_eq (cmp z v)), (existsb (fun y => is_eq (cmp z y)) vs), (mem_list cmp z (RBTree.inorder t)); reflexivity.
+Qed.
+
+Lemma ts_dels_spec cmp vs : SWO cmp -> forall t n, tree_inv cmp t n ->
+  exists t' n', rbs_removes cmp vs (t, n) = Some (t', n') /\ tree_inv cmp t' n' /\
+    forall z, tmem cmp t' z = negb (eqvb cmp z vs) && tmem cmp t z.
+Proof.
+  intros Hswo. induction vs as [|v vs IH]; intros t n Hinv.
+  - exists t, n. split; [reflexivity|]. split; [assumption|]. intros z. reflexivity.
+  - cbn [rbs_removes].
+    destruct (sp_rbs_remove_spec cmp v t n Hswo Hinv) as (t1 & n1 & E1 & I1 & O1 & _). rewrite E1.
+    destruct (IH t1 n1 I1) as (t2 & n2 & E2 & I2 & M2).
+    exists t2, n2. split; [assumption|]. split; [assumption|].
+    intros z. rewrite M2. unfold tmem. rewrite O1, sp_mem_del by (try assumption; apply Hinv).
+    unfold eqvb. cbn [existsb].
+    destruct (is_eq (cmp z v)), (existsb (fun y => is_eq (cmp z y)) vs), (mem_list cmp z (RBTree.inorder t)); reflexivity.
+Qed.
+
+Lemma member_tree c t n x : bst (kc c) t -> member c (StRB t n) x = tmem (kc c) t x.
+Proof.
+  intros Hb. cbn [member]. unfold tmem, mem_list.
+  assert (H : RBTree.lookup (kc c) x t = find_list (kc c) x (RBTree.inorder t)).
+  { apply lookup_spec; [apply sp_kc_SWO|assumption]. }
+  unfold RB.lookup. rewrite H. reflexivity.
+Qed.
